@@ -70,10 +70,10 @@ PLANS = {
     "C07": {
         "drive": [{"kind": "edit", "count": {"quick": 6000, "thorough": 40000}, "ops": ["build_object", "build_array"]}],
         "gen": [
-            {"name": "chain1", "module": "System", "constants": {"ChainLen": "1", "Walkers": "0"}, "invariants": ["GenInv"],
+            {"name": "chain1", "module": "System", "constants": {"ChainLen": "1", "Walkers": "0"}, "invariants": ["GenInv"], "properties": ["AppendOnly"],
              "tier_constants": {"quick": {"StartSet": '"tiny"'}, "thorough": {"StartSet": '"small"'}}},
-            {"name": "text2", "module": "System", "constants": {"ChainLen": "2", "Walkers": "0", "StartSet": '"text2"'}, "invariants": ["GenInv"]},
-            {"name": "walks", "module": "System", "constants": {"StartSet": '"full"'}, "invariants": ["GenInv"],
+            {"name": "text2", "module": "System", "constants": {"ChainLen": "2", "Walkers": "0", "StartSet": '"text2"'}, "invariants": ["GenInv"], "properties": ["AppendOnly"]},
+            {"name": "walks", "module": "System", "constants": {"StartSet": '"full"'}, "invariants": ["GenInv"], "properties": ["AppendOnly"],
              "tier_constants": {"quick": {"ChainLen": "6", "Walkers": "1500"}, "thorough": {"ChainLen": "10", "Walkers": "8000"}}},
         ],
         "bounds": "exhaustive: every enabled step (19 functions x arguments drawn from the current documents x source/destination registers) from every pair of start documents; random walks of the state machine: quick 1500 walks x 6 steps, thorough 8000 x 10, each replayed on the real crate with its own output bytes threaded from call to call and all results appended to one buffer",
